@@ -399,6 +399,14 @@ class ExtMixin:
             out = out * v
         return out
 
+    def bi_np_argsort(self, st, f, args, kw, node):
+        """numpy.argsort of a concrete sequence of pairwise distinct python integers (an axis order): the stable sorting permutation"""
+        (x,) = args
+        items = self.concrete_items(st, x)
+        if kw or not all(isinstance(v, int) and not isinstance(v, bool) for v in items) or len(set(items)) != len(items):
+            raise Unsupported("np.argsort of this value")
+        return PList(sorted(range(len(items)), key=lambda k: items[k]))
+
     def bi_bytes(self, st, f, args, kw, node):
         x = args[0]
         if hasattr(x, "utf8") and (len(args) == 1 or args[1] in ("utf8", "utf-8")):
